@@ -354,7 +354,7 @@ def obligations(tier):
                     desc="query_by_position against the exact semantics of the real bins() (z3 terms generated from its source): member returned <=> "
                          "(strict: inside; relaxed: overlapping), for ALL integer coordinates including those in different 128 kb / 1 Mb ... bins",
                     bounds="2 members (%s, %s), unbounded symbolic coordinates/bounds/query" % kind,
-                    examples=[ex, dict(ex, s1=131080, hi=400000, qe=131090), dict(ex, s0=30, l0=5, s1=12, l1=8), dict(ex, qs=14)])
+                    examples=[dict(e_, l1=1) if kind[1] == "vc" else e_ for e_ in (ex, dict(ex, s1=131080, hi=400000, qe=131090), dict(ex, s0=30, l0=5, s1=12, l1=8), dict(ex, qs=14))])
             if within:
                 out.extend(split_cubes(o, {"m0first": lambda **kw: kw["s0"] < kw["s1"],
                                            "qs_le_both": lambda **kw: kw["qs"] <= kw["s0"] and kw["qs"] <= kw["s1"],
